@@ -116,7 +116,9 @@ def main():
         return case, orc
     # ---- every crash point of every save of short histories ----------------------------------------
     bases = [''.join(t) for n in range(2, 6) for t in itertools.product('wrs', repeat=n) if 's' in t and 'w' in t]
-    longer = ['wwrsrws', 'wrswwRs', 'wwwrsdr', 'wrsdwrs', 'wwrscrw', 'wsRwwsr', 'wwwwrsR', 'wrwrsws', 'wwsdwsr', 'wrcwsrw']
+    # 'wwwrrsrs' with file_size 100: the first save records an offset of three digits, the second one - in the next file - of one
+    # digit: whatever an earlier, interrupted save left behind must not show through a later, shorter one
+    longer = ['wwwrrsrs', 'wwrsrws', 'wrswwRs', 'wwwrsdr', 'wrsdwrs', 'wwrscrw', 'wsRwwsr', 'wwwwrsR', 'wrwrsws', 'wwsdwsr', 'wrcwsrw']
     todo = [(b, v) for b in bases + longer for v in variants(b)]
     if not run.thorough:
         todo = rng.sample(todo, 600) + [(b, v) for b in longer[:4] for v in variants(b)]
@@ -124,6 +126,8 @@ def main():
         hdr = dict(mode=rng.choice(MODES), file_size=rng.choice([1, 5, 20]), utc=True, base=base,
                    crash_at=at, how=how if how == 'kill' else list(how))
         hdr['total_size'] = rng.choice([10 ** 6, 3 * hdr['file_size'], 10 * hdr['file_size']])
+        if base == 'wwwrrsrs':
+            hdr.update(file_size=100, total_size=10 ** 6)
         ops = build(base, at, how, hdr, int(rng.random() < 0.6))
         case, orc = one('crash-points', hdr, ops)
         run.count('crash:%s' % ('kill' if how == 'kill' else 'k%d.%d' % how))
